@@ -13,6 +13,7 @@ import (
 	"fmt"
 	"go/ast"
 	"go/token"
+	"sort"
 	"strings"
 )
 
@@ -168,13 +169,13 @@ func c41TlsNegoFacts(id string) func(repo string) (string, error) {
 		if err != nil {
 			return "", err
 		}
-		_, fhs, err := parseFile(repo, "bfe_tls/handshake_server.go")
-		if err != nil {
-			return "", err
-		}
 		env := map[string]int64{}
 		c41ConstInts(fco, env)
 		c41ConstInts(fcs, env)
+		tlsPkg, err := c41LoadPkg(repo, "bfe_tls")
+		if err != nil {
+			return "", err
+		}
 		var b strings.Builder
 		b.WriteString(header(id, "bfe_tls/cipher_suites.go", "bfe_tls/common.go", "bfe_tls/handshake_server.go"))
 
@@ -228,11 +229,33 @@ func c41TlsNegoFacts(id string) func(repo string) (string, error) {
 		b.WriteString("\n/-- `cipherSuites` of cipher_suites.go in table order: (id, flags). -/\ndef cipherSuiteTable : List (Nat × Nat) := [\n")
 		for i, e := range cl.Elts {
 			row, ok := e.(*ast.CompositeLit)
-			if !ok || len(row.Elts) != 9 {
-				return "", fmt.Errorf("cipherSuites[%d]: not a 9-field positional literal", i)
+			if !ok {
+				return "", fmt.Errorf("cipherSuites[%d]: not a composite literal", i)
 			}
-			idv, ok1 := c41EvalConst(row.Elts[0], 0, env)
-			fl, ok2 := c41EvalConst(row.Elts[5], 0, env)
+			var idE, flE ast.Expr
+			if len(row.Elts) > 0 {
+				if _, keyed := row.Elts[0].(*ast.KeyValueExpr); keyed {
+					for _, f := range row.Elts {
+						kv := f.(*ast.KeyValueExpr)
+						switch c41ExprString(kv.Key) {
+						case "id":
+							idE = kv.Value
+						case "flags":
+							flE = kv.Value
+						}
+					}
+					if flE == nil {
+						flE = &ast.BasicLit{Kind: token.INT, Value: "0"}
+					}
+				} else if len(row.Elts) == 9 {
+					idE, flE = row.Elts[0], row.Elts[5]
+				}
+			}
+			if idE == nil || flE == nil {
+				return "", fmt.Errorf("cipherSuites[%d]: neither a 9-field positional nor a keyed literal", i)
+			}
+			idv, ok1 := c41EvalConst(idE, 0, env)
+			fl, ok2 := c41EvalConst(flE, 0, env)
 			if !ok1 || !ok2 {
 				return "", fmt.Errorf("cipherSuites[%d]: id/flags not understood", i)
 			}
@@ -240,16 +263,16 @@ func c41TlsNegoFacts(id string) func(repo string) (string, error) {
 			if i == len(cl.Elts)-1 {
 				sep = ""
 			}
-			fmt.Fprintf(&b, "  (0x%04x, %d)%s  -- %s  %s\n", idv, fl, sep, c41ExprString(row.Elts[0]), c41ExprString(row.Elts[5]))
+			fmt.Fprintf(&b, "  (0x%04x, %d)%s\n", idv, fl, sep)
 		}
 		b.WriteString("]\n\n")
 
-		ecdhe, err := c41SwitchTrueCases(findFunc(fcs, "", "CheckSuiteECDHE"), env)
+		ecdhe, err := c41TrueSet(tlsPkg, tlsPkg.fn("", "CheckSuiteECDHE"), env, false)
 		if err != nil {
 			return "", err
 		}
 		fmt.Fprintf(&b, "/-- ids for which `CheckSuiteECDHE` returns true. -/\ndef checkSuiteECDHE : List Nat := %s\n", c41NatList(ecdhe))
-		h2, err := c41SwitchTrueCases(findFunc(fcs, "", "checkCipherSuiteHttp2Accepted"), env)
+		h2, err := c41TrueSet(tlsPkg, tlsPkg.fn("", "checkCipherSuiteHttp2Accepted"), env, false)
 		if err != nil {
 			return "", err
 		}
@@ -270,115 +293,34 @@ func c41TlsNegoFacts(id string) func(repo string) (string, error) {
 		}
 		fmt.Fprintf(&b, "def defaultCurvePreferences : List Nat := %s\n", c41NatList(curves))
 
-		// the SCSV comparison in readClientHello:  if hs.clientHello.vers < <rhs> { alertInappropriateFallback }
-		rch := findFunc(fhs, "serverHandshakeState", "readClientHello")
+		// the bound the hello's version is compared with where alertInappropriateFallback is sent (helpers followed)
+		rch := tlsPkg.fn("serverHandshakeState", "readClientHello")
 		if rch == nil {
 			return "", fmt.Errorf("readClientHello not found")
 		}
-		rhs := ""
-		nScsv := 0
-		ast.Inspect(rch, func(nd ast.Node) bool {
-			is, ok := nd.(*ast.IfStmt)
-			if !ok {
-				return true
-			}
-			be, ok := is.Cond.(*ast.BinaryExpr)
-			if ok && be.Op == token.EQL && c41ExprString(be.Y) == "TLS_FALLBACK_SCSV" {
-				nScsv++
-				for _, st := range is.Body.List {
-					if in, ok := st.(*ast.IfStmt); ok {
-						if c, ok := in.Cond.(*ast.BinaryExpr); ok && c.Op == token.LSS && c41ExprString(c.X) == "hs.clientHello.vers" {
-							rhs = c41ExprString(c.Y)
-						}
-					}
-				}
-			}
-			return true
-		})
-		if nScsv != 1 {
-			return "", fmt.Errorf("readClientHello: expected exactly one `id == TLS_FALLBACK_SCSV` test, found %d", nScsv)
-		}
-		var viaMethod string
-		switch rhs {
-		case "c.config.maxVersion()", "config.maxVersion()":
-			viaMethod = "true"
-		case "c.config.MaxVersion", "config.MaxVersion":
-			viaMethod = "false"
-		default:
-			return "", fmt.Errorf("readClientHello: SCSV comparison right-hand side %q not understood", rhs)
-		}
-		fmt.Fprintf(&b, "\n/-- readClientHello compares `hs.clientHello.vers < %s` when TLS_FALLBACK_SCSV is offered:\n    true = the effective maximum (`maxVersion()`), false = the raw `MaxVersion` field (0 by default). -/\ndef scsvUsesEffectiveMax : Bool := %s\n", rhs, viaMethod)
-
-		// checkForResumption: `if c.vers != hs.sessionState.vers { return false }` present?
-		cfr := findFunc(fhs, "serverHandshakeState", "checkForResumption")
-		if cfr == nil {
-			return "", fmt.Errorf("checkForResumption not found")
-		}
-		sameVers, oldGt, oldMutual := false, false, false
-		ast.Inspect(cfr, func(nd ast.Node) bool {
-			is, ok := nd.(*ast.IfStmt)
-			if !ok {
-				return true
-			}
-			s := c41ExprString(is.Cond)
-			if s == "c.vers!=hs.sessionState.vers" || s == "hs.sessionState.vers!=c.vers" {
-				if len(is.Body.List) == 1 {
-					if rs, ok := is.Body.List[0].(*ast.ReturnStmt); ok && len(rs.Results) == 1 && c41ExprString(rs.Results[0]) == "false" {
-						sameVers = true
-					}
-				}
-			}
-			if strings.Contains(s, "hs.sessionState.vers>hs.clientHello.vers") {
-				oldGt = true
-			}
-			if is.Init != nil && strings.Contains(s, "vers!=hs.sessionState.vers") {
-				oldMutual = true
-			}
-			return true
-		})
-		if !sameVers && !(oldGt && oldMutual) {
-			return "", fmt.Errorf("checkForResumption: version checks not understood")
-		}
-		fmt.Fprintf(&b, "\n/-- checkForResumption contains `if c.vers != hs.sessionState.vers { return false }`\n    (true), or only the older `sessionState.vers > clientHello.vers` / mutualVersion tests (false). -/\ndef resumeRequiresSameVersion : Bool := %v\n", sameVers)
-		fmt.Fprintf(&b, "/-- the older tests are (also) present -/\ndef resumeHasLegacyVersionTests : Bool := %v\n", oldGt && oldMutual)
-		// curves: what the ECDHE key agreement implements (curveForCurveID) and what bfe's configuration loader
-		// lets an operator name (bfe_conf.CurvesMap)
-		_, fka, err := parseFile(repo, "bfe_tls/key_agreement.go")
+		viaMethod, err := c41ScsvBound(tlsPkg, rch)
 		if err != nil {
 			return "", err
 		}
-		cfc := findFunc(fka, "", "curveForCurveID")
-		if cfc == nil {
-			return "", fmt.Errorf("curveForCurveID not found")
+		fmt.Fprintf(&b, "\n/-- readClientHello refuses a hello carrying TLS_FALLBACK_SCSV when `clientHello.vers < bound`:\n    true = bound is the effective maximum (`maxVersion()`), false = the raw `MaxVersion` field (0 by default). -/\ndef scsvUsesEffectiveMax : Bool := %v\n", viaMethod)
+
+		// checkForResumption: a session of another version than the connection's is refused?
+		cfr := tlsPkg.fn("serverHandshakeState", "checkForResumption")
+		if cfr == nil {
+			return "", fmt.Errorf("checkForResumption not found")
 		}
-		var impl []int64
-		var cerr error
-		ast.Inspect(cfc, func(nd ast.Node) bool {
-			cc, ok := nd.(*ast.CaseClause)
-			if !ok || cc.List == nil {
-				return true
-			}
-			if len(cc.Body) != 1 {
-				cerr = fmt.Errorf("curveForCurveID: case body not understood")
-				return false
-			}
-			rs, ok := cc.Body[0].(*ast.ReturnStmt)
-			if !ok || len(rs.Results) != 2 || c41ExprString(rs.Results[1]) != "true" {
-				cerr = fmt.Errorf("curveForCurveID: case does not return (curve, true)")
-				return false
-			}
-			for _, e := range cc.List {
-				v, ok := c41EvalConst(e, 0, env)
-				if !ok {
-					cerr = fmt.Errorf("curveForCurveID: case constant not understood")
-					return false
-				}
-				impl = append(impl, v)
-			}
-			return true
-		})
-		if cerr != nil {
-			return "", cerr
+		sameVers, legacy, err := c41ResumeVersionTests(tlsPkg, cfr)
+		if err != nil {
+			return "", err
+		}
+		fmt.Fprintf(&b, "\n/-- checkForResumption refuses when the connection's version differs from the session's\n    (true), or has only the older `sessionState.vers > clientHello.vers` / mutualVersion tests (false). -/\ndef resumeRequiresSameVersion : Bool := %v\n", sameVers)
+		fmt.Fprintf(&b, "/-- the older tests are (also) present -/\ndef resumeHasLegacyVersionTests : Bool := %v\n", legacy)
+
+		// curves: what the ECDHE key agreement implements (curveForCurveID) and what bfe's configuration loader
+		// lets an operator name (bfe_conf.CurvesMap)
+		impl, err := c41TrueSet(tlsPkg, tlsPkg.fn("", "curveForCurveID"), env, true)
+		if err != nil {
+			return "", err
 		}
 		fmt.Fprintf(&b, "\n/-- curve ids for which `curveForCurveID` (key_agreement.go) returns a curve -/\ndef implementedCurves : List Nat := %s\n", c41NatList(impl))
 		_, fbc, err := parseFile(repo, "bfe_config/bfe_conf/conf_https_basic.go")
@@ -405,118 +347,77 @@ func c41TlsNegoFacts(id string) func(repo string) (string, error) {
 			}
 			confCurves = append(confCurves, v)
 		}
+		sort.Slice(confCurves, func(i, j int) bool { return confCurves[i] < confCurves[j] })
 		fmt.Fprintf(&b, "/-- curve ids an operator can configure (values of bfe_conf.CurvesMap; GetCurvePreferences rejects other names) -/\ndef configurableCurves : List Nat := %s\n", c41NatList(confCurves))
-		// bfe_server/tls_server_rule.go: is the SNI normalised (lower case) for the rule lookup, on both sides of the map?
-		_, fsr, err := parseFile(repo, "bfe_server/tls_server_rule.go")
+		// bfe_server/tls_server_rule.go (helpers followed): lookup order VIP map, then SNI map; SNI lower-cased on both sides
+		srvPkg, err := c41LoadPkg(repo, "bfe_server")
 		if err != nil {
 			return "", err
 		}
-		hasLower := func(fd *ast.FuncDecl) bool {
-			found := false
-			if fd == nil {
-				return false
-			}
-			ast.Inspect(fd, func(nd ast.Node) bool {
-				if c, ok := nd.(*ast.CallExpr); ok && c41ExprString(c.Fun) == "strings.ToLower" {
-					found = true
+		gr := srvPkg.fn("TLSServerRuleMap", "getRule")
+		up := srvPkg.fn("TLSServerRuleMap", "Update")
+		if gr == nil || up == nil {
+			return "", fmt.Errorf("tls_server_rule.go: getRule / Update not found")
+		}
+		idx, vipAt, sniAt, lowerAt := 0, -1, -1, -1
+		srvPkg.walk(gr, func(n ast.Node) {
+			idx++
+			switch v := n.(type) {
+			case *ast.IndexExpr:
+				x := c41ExprString(v.X)
+				if strings.HasSuffix(x, "vipRuleMap") && vipAt < 0 {
+					vipAt = idx
 				}
-				return true
-			})
-			return found
-		}
-		gs := findFunc(fsr, "TLSServerRuleMap", "getRuleBySni")
-		up := findFunc(fsr, "TLSServerRuleMap", "Update")
-		gr := findFunc(fsr, "TLSServerRuleMap", "getRule")
-		if gs == nil || up == nil || gr == nil {
-			return "", fmt.Errorf("tls_server_rule.go: getRule / getRuleBySni / Update not found")
-		}
-		// order of the lookups in getRule: vip, then sni, then default
-		var order []string
-		ast.Inspect(gr, func(nd ast.Node) bool {
-			if c, ok := nd.(*ast.CallExpr); ok {
-				switch c41ExprString(c.Fun) {
-				case "m.getRuleByVip", "m.getRuleBySni", "m.getDefaultRule":
-					order = append(order, c41ExprString(c.Fun))
-				}
-			}
-			return true
-		})
-		if strings.Join(order, ",") != "m.getRuleByVip,m.getRuleBySni,m.getDefaultRule" {
-			return "", fmt.Errorf("getRule: lookup order %v not understood", order)
-		}
-		lk, ld := hasLower(gs), hasLower(up)
-		if lk != ld {
-			return "", fmt.Errorf("tls_server_rule.go: SNI lower-cased on one side of the rule map only (lookup=%v, load=%v)", lk, ld)
-		}
-		fmt.Fprintf(&b, "\n/-- TLSServerRuleMap lower-cases the SNI (getRuleBySni) and the configured names (Update) before the map lookup;\n    false = both are used verbatim (case-sensitive lookup) -/\ndef sniRuleLookupNormalised : Bool := %v\n", lk)
-		// order of operations in readClientHello: the connection's server name must be set before anything that looks
-		// at it through the Conn (ServerRule.Get, rule.NextProtos.Get, MultiCert.Get)
-		var setPos, firstUse token.Pos
-		ast.Inspect(rch, func(nd ast.Node) bool {
-			switch v := nd.(type) {
-			case *ast.AssignStmt:
-				if len(v.Lhs) == 1 && c41ExprString(v.Lhs[0]) == "c.serverName" && (setPos == 0 || v.Pos() < setPos) {
-					setPos = v.Pos()
+				if strings.HasSuffix(x, "sniRuleMap") && sniAt < 0 {
+					sniAt = idx
 				}
 			case *ast.CallExpr:
-				switch c41ExprString(v.Fun) {
-				case "config.ServerRule.Get", "rule.NextProtos.Get", "config.MultiCert.Get", "tlsMultiCertificate.Get":
-					if firstUse == 0 || v.Pos() < firstUse {
-						firstUse = v.Pos()
-					}
+				if c41ExprString(v.Fun) == "strings.ToLower" && lowerAt < 0 {
+					lowerAt = idx
 				}
 			}
-			return true
 		})
-		if firstUse == 0 {
-			return "", fmt.Errorf("readClientHello: no ServerRule.Get / NextProtos.Get / MultiCert.Get call found")
+		if vipAt < 0 || sniAt < 0 || vipAt > sniAt {
+			return "", fmt.Errorf("getRule: lookup order (vip map, then sni map) not understood")
 		}
-		fmt.Fprintf(&b, "\n/-- readClientHello assigns `c.serverName` (from the hello's SNI) before the first of ServerRule.Get(c),\n    rule.NextProtos.Get(c), MultiCert.Get(c) — the lookups that read it through the Conn -/\ndef serverNameSetBeforeLookups : Bool := %v\n", setPos != 0 && setPos < firstUse)
-		// what a full handshake stores for later resumption: the `vers` field of the sessionState literals in
-		// sendSessionTicket (ticket) and serverHandshake (session cache)
-		versExprs := []string{}
-		for _, fn := range []string{"sendSessionTicket", "serverHandshake"} {
-			fd := findFunc(fhs, "serverHandshakeState", fn)
-			if fd == nil {
-				fd = findFunc(fhs, "Conn", fn)
+		lowerLoad := false
+		srvPkg.walk(up, func(n ast.Node) {
+			if c, ok := n.(*ast.CallExpr); ok && c41ExprString(c.Fun) == "strings.ToLower" {
+				lowerLoad = true
 			}
-			if fd == nil {
-				return "", fmt.Errorf("%s not found", fn)
-			}
-			n := 0
-			ast.Inspect(fd, func(nd ast.Node) bool {
-				cl, ok := nd.(*ast.CompositeLit)
-				if !ok || c41ExprString(cl.Type) != "sessionState" {
-					return true
-				}
-				for _, e := range cl.Elts {
-					if kv, ok := e.(*ast.KeyValueExpr); ok && c41ExprString(kv.Key) == "vers" {
-						versExprs = append(versExprs, c41ExprString(kv.Value))
-						n++
-					}
-				}
-				return true
-			})
-			if n != 1 {
-				return "", fmt.Errorf("%s: expected one sessionState literal with a vers field, found %d", fn, n)
-			}
+		})
+		lk := lowerAt >= 0
+		if lk != lowerLoad {
+			return "", fmt.Errorf("tls_server_rule.go: SNI lower-cased on one side of the rule map only (lookup=%v, load=%v)", lk, lowerLoad)
 		}
-		for k, e := range versExprs {
-			var v bool
-			switch e {
-			case "c.vers":
-				v = true
-			case "hs.clientHello.vers":
-				v = false
-			default:
-				return "", fmt.Errorf("sessionState literal: vers = %s not understood", e)
-			}
-			name, where := "ticketStoresNegotiatedVersion", "sealed into a ticket by sendSessionTicket"
-			if k == 1 {
-				name, where = "cacheStoresNegotiatedVersion", "stored in the session cache by serverHandshake"
-			}
-			fmt.Fprintf(&b, "\n/-- the sessionState %s has vers = %s: true = the NEGOTIATED version `c.vers`,\n    false = the version the client offered -/\ndef %s : Bool := %v\n", where, e, name, v)
+		fmt.Fprintf(&b, "\n/-- TLSServerRuleMap lower-cases the SNI (lookup) and the configured names (Update) before the map lookup;\n    false = both are used verbatim (case-sensitive lookup) -/\ndef sniRuleLookupNormalised : Bool := %v\n", lk)
+
+		// order of operations in readClientHello (helpers followed): the connection's server name is set before anything
+		// that looks at it through the Conn (ServerRule.Get, rule.NextProtos.Get, MultiCert.Get)
+		first, err := c41ServerNameFirst(tlsPkg, rch)
+		if err != nil {
+			return "", err
 		}
+		fmt.Fprintf(&b, "\n/-- readClientHello assigns the Conn's serverName (from the hello's SNI) before the first of ServerRule.Get(c),\n    rule.NextProtos.Get(c), MultiCert.Get(c) — the lookups that read it through the Conn -/\ndef serverNameSetBeforeLookups : Bool := %v\n", first)
+
+		// what a full handshake stores for later resumption: the `vers` of the sessionState built by sendSessionTicket
+		// (ticket) and by serverHandshake (session cache), helpers followed
+		sst := tlsPkg.fn("serverHandshakeState", "sendSessionTicket")
+		shs := tlsPkg.fn("Conn", "serverHandshake")
+		if sst == nil || shs == nil {
+			return "", fmt.Errorf("sendSessionTicket / serverHandshake not found")
+		}
+		tv, err := c41IssuedVers(tlsPkg, sst, "sendSessionTicket")
+		if err != nil {
+			return "", err
+		}
+		// serverHandshake calls sendSessionTicket: look only at what it builds itself
+		cv, err := c41IssuedVersExcluding(tlsPkg, shs, "serverHandshake", sst)
+		if err != nil {
+			return "", err
+		}
+		fmt.Fprintf(&b, "\n/-- the sessionState sealed into a ticket by sendSessionTicket has vers = the NEGOTIATED version of the connection\n    (true) or the version the client offered (false) -/\ndef ticketStoresNegotiatedVersion : Bool := %v\n", tv)
+		fmt.Fprintf(&b, "\n/-- the sessionState stored in the session cache by serverHandshake has vers = the NEGOTIATED version of the\n    connection (true) or the version the client offered (false) -/\ndef cacheStoresNegotiatedVersion : Bool := %v\n", cv)
 		b.WriteString(footer(id))
 		return b.String(), nil
 	}
